@@ -419,45 +419,58 @@ def check_one_missing(ck, fn):
 
 # ------------------------------------------------------------------ prepare_unguarded
 def check_prepare(ck, tu):
+    """PREPARE-BOUNDS: the part of prepare_unguarded() behind the minimum scan is evaluated on its index skeleton for 4
+    sequences and every min_sequence: each sequence is split exactly once, with upper_bound for s <= min_sequence in stable
+    mode and lower_bound otherwise (equal elements of earlier sequences are still merged unguarded, later ones are not)"""
+    from engine import skel
     for fn in tu.some(qname=NS + "prepare_unguarded"):
         stable = fn.targs[0] == "true"
-        minseq = fn.params[3]["did"]
-        loops = [s for s in kids(fn.body) if s["k"] == "ForStmt"]
-        ck.require(len(loops) == 3, "%s: expected three loops (scan, <= min_sequence, rest)" % fn.loc)
-        first, second = loops[1], loops[2]
-        c = match.binop(kids(first)[1], ("<=", "<"))
-        bound_ok = bool(c and c[0] == "<=" and ref_of(c[2]) == minseq)
-
-        def bounds(loop):
-            out = []
-
-            def rec(n):
-                if n is None:
-                    return
-                if n["k"] == "IfStmt":
-                    cv = const_int(kids(n)[0])
-                    if cv is not None:
-                        rec(kids(n)[1] if cv else kids(n)[2])
-                        return
-                x = match.call_named(n, ("upper_bound", "lower_bound")) if "callee" in n else None
-                if x is not None and n["k"] == "CallExpr":
-                    out.append(x["callee"]["name"])
-                for ch in kids(n):
-                    rec(ch)
-                if "init" in n:
-                    rec(n["init"])
-            rec(kids(loop)[3])
-            return out
-        b1, b2 = bounds(first), bounds(second)
-        want1 = ["upper_bound"] if stable else ["lower_bound"]
+        seqs_b, seqs_e, minseq = fn.params[0]["did"], fn.params[1]["did"], fn.params[3]["did"]
+        top = kids(fn.body)
+        scan = [i for i, s_ in enumerate(top) if s_["k"] in ("ForStmt", "WhileStmt") and
+                any(match.binop(z, ("=",)) and ref_of(match.binop(z, ("=",))[1]) == minseq for z in ir.walk(s_) if z["k"] == "BinaryOperator")]
+        ck.require(len(scan) == 1, "%s: minimum scan not found" % fn.loc)
+        frag = top[scan[0] + 1:]
+        K = 4
+        bad = None
         sig = "stable" if stable else "unstable"
-        if not bound_ok:
-            ck.violation("PREPARE-BOUNDS", fn.qname, sig + ":range", "the first split loop must cover sequences 0..min_sequence inclusive", fn.nloc(first))
-        elif b1 != want1 or b2 != ["lower_bound"]:
-            ck.violation("PREPARE-BOUNDS", fn.qname, sig + ":bound",
-                         "sequences <= min_sequence must be split with %s and later ones with lower_bound (got %s / %s)" % (want1[0], b1, b2), fn.nloc(first))
+        for m in range(K):
+            calls = []
+
+            def event(e, sk):
+                if "callee" in e and e["callee"]["name"] in ("upper_bound", "lower_bound") and e["k"] == "CallExpr":
+                    f = match.field_of(kids(e)[0])
+                    ip = match.index_parts(f[0]) if f else None
+                    idx = sk.ev(ip[1]) if ip and ref_of(ip[0]) == seqs_b else None
+                    calls.append((e["callee"]["name"], idx, e))
+                    return None
+                return NotImplemented
+            sk = skel.Skel(fn, {minseq: m, seqs_b: 0, seqs_e: K}, None, event)
+            try:
+                sk.run(frag)
+            except skel.Return:
+                pass
+            if any(c[1] is None for c in calls):
+                raise dtable.Undecidable("%s: sequence index of a bound search not understood" % fn.loc)
+            got = {}
+            for name, idx, node in calls:
+                got.setdefault(idx, []).append(name)
+            for q in range(K):
+                want = "upper_bound" if (stable and q <= m) else "lower_bound"
+                if got.get(q) != [want] and bad is None:
+                    if not got.get(q):
+                        bad = (":range", "with min_sequence = %d sequence %d of %d is not split at all: the split loops must cover all sequences "
+                                         "(0..min_sequence inclusive, then the rest)" % (m, q, K), calls[0][2] if calls else fn.body)
+                    elif len(got[q]) > 1:
+                        bad = (":range", "with min_sequence = %d sequence %d is split %d times" % (m, q, len(got[q])), calls[0][2])
+                    else:
+                        bad = (":bound", "with min_sequence = %d sequence %d is split with %s; sequences <= min_sequence must be split with %s and later "
+                                         "ones with lower_bound" % (m, q, got[q][0], "upper_bound" if stable else "lower_bound"), calls[0][2])
+        if bad:
+            ck.violation("PREPARE-BOUNDS", fn.qname, sig + bad[0], bad[1], fn.nloc(bad[2]))
         else:
-            ck.ok("PREPARE-BOUNDS", "prepare_unguarded<%s>" % fn.targs[0], "s <= min_sequence: %s; s > min_sequence: lower_bound" % want1[0])
+            ck.ok("PREPARE-BOUNDS", "prepare_unguarded<%s>" % fn.targs[0], "4 sequences, every min_sequence: s <= min_sequence: %s; s > min_sequence: lower_bound; each once"
+                  % ("upper_bound" if stable else "lower_bound"))
 
 
 # ------------------------------------------------------------------ dispatch
